@@ -1,6 +1,8 @@
 """C18 — MPS round trip (DESIGN §5 C18): the writer emits only what the reader accepts and loses nothing."""
 from .common import *
-from .C17 import literal_table
+from .C17 import literal_table, Sx, SxOracle, sx_paths, sx_loop_paths, sx_calls, sx_walk, sx_strip, sx_str
+
+VIEW = 'norm'
 
 WRITER_FNS = ('write_mps', 'write_beginning', 'write_rows', 'write_columns', 'write_col_entry', 'write_rhs', 'write_bounds', 'constr_name', 'dvar_name')
 LABELS = {'RHS1', 'BND1', 'MARK', 'OBJ'}       # free-form names, not keywords
@@ -42,6 +44,24 @@ def str_consts_of(b):
     return out
 
 
+def result_errflow(b, local):
+    """T.errflow with the Err/None side chosen by the type of the local: variant 1 of a Result, variant 0 of an Option
+    (`r.map_err(f)?`  ≡  `match r { Ok(v) => v, Err(e) => return Err(f(e)) }`)"""
+    return T.errflow(b, local, none_variant=1 if b.locals[local].lstrip().startswith('std::result::Result') else 0)
+
+
+def fmt_records(p):
+    """what a symbolic path writes: (string literals, displayed values, block) per write_fmt"""
+    out = []
+    for e in p.events:
+        if e[0] == 'call' and e[1] in ('write_fmt', 'write_all', 'write_str') and len(e[3]) >= 2:
+            a = e[3][1]
+            vals = [sx_strip(c[3][0]) for c in sx_calls(a) if c[1] in ('new_display', 'new_debug', 'new_lower_exp', 'new_upper_exp') and c[3]]
+            lits = [x[1] for x in sx_walk(a) if x[0] == 'const' and (x[1].startswith('b"') or x[1].startswith('"'))]
+            out.append((lits, vals, e[4]))
+    return out
+
+
 def reader_tables(ctx):
     tabs = {}
     for key, (ty, fn, trait) in {'sense': ('mps::parser::ObjSense', 'from_str', 'FromStr'), 'sections': ('mps::parser::Cursor', 'from_str', 'FromStr'), 'rows': ('mps::parser::State', 'read_row_field', None),
@@ -55,68 +75,79 @@ def reader_tables(ctx):
     return tabs
 
 
+class WriterCase(SxOracle):
+    """the object being written has the given integer-coded fields {(type suffix, field): number} and bound
+    (None: not fixed, 'unset': no bound, (lower, upper)); writes and lookups succeed"""
+    def __init__(self, nums=None, bound=None): self.nums = nums or {}; self.bound = bound
+
+    def variant(self, sx, v, st):
+        if v[0] == 'call' and v[1] in ('write_fmt', 'write_all', 'intorg', 'intend', 'write_col_entry'): return 'Ok'
+        if v[0] == 'call' and v[1] in ('get', 'get_key_value') and 'HashMap::<' in v[2]: return 'Some'
+        if self.bound is not None and v[0] == 'field' and v[2] == 'bound' and v[3].endswith('DecisionVariable'): return 'None' if self.bound == 'unset' else 'Some'
+        return None
+
+    def num(self, sx, v, st):
+        if v[0] == 'field':
+            for (adt, f), x in self.nums.items():
+                if v[2] == f and v[3].endswith(adt): return x
+            if self.bound not in (None, 'unset') and v[3].endswith('v1::Bound') and v[2] in ('lower', 'upper'): return self.bound[0 if v[2] == 'lower' else 1]
+        return None
+
+
+def schema_no(ctx, enum, variant):
+    a = ctx.F.adt(enum)
+    return {v['name']: v['discr'] for v in a['variants']}.get(variant) if a else None
+
+
+def shown_consts(recs, pattern):
+    return sorted({sx_strip(v)[1].strip('"') for lits, vals, bi in recs for v in vals if sx_strip(v)[0] == 'const' and re.fullmatch(pattern, sx_strip(v)[1])})
+
+
 def magic_rules(ctx, W):
+    """the integer literals the writer compares sense / equality / kind with are the schema numbers: decided on what is written for
+    each value of the field (`match x { 2 => .. }` ≡ `if x == 2` ≡ `matches!(x, 2)`)"""
     R = 'C18.magic'
-    def schema_no(enum, variant):
-        a = ctx.F.adt(enum)
-        return {v['name']: v['discr'] for v in a['variants']}.get(variant) if a else None
-    def int_switches(b, adt, field):
-        out = []
-        for bi in sorted(b.live):
-            t = b.blocks[bi]['term']
-            if t['k'] == 'switch' and t['d']['k'] != 'const':
-                fs = T.access_path(b, t['d'])[0]
-                if (adt, field) in fs: out.append((bi, t))
-        return out
-    # sense: 2 => Max
+    # sense: Maximize => MAX, everything else MIN
     b = W.get('mps::to_mps::write_beginning')
     if b is None: ctx.lost(R + '/sense', 'write_beginning')
     else:
-        ctx.fn(b); ok = False; got = None
-        for bi, t in int_switches(b, 'v1::Instance', 'sense'):
-            m = {v: tg for v, tg in t['ts']}
-            rows = {}
-            for v, tg in list(m.items()) + [('else', t['else'])]:
-                others = (set(m.values()) | {t['else']}) - {tg}
-                reg = b.reach([tg], stop=others)
-                rows[v] = sorted({st['rv']['adt'].split('::')[-1] for b2, st in b.stmts() if b2 in reg and st['rv']['k'] == 'agg' and 'ObjSense::' in st['rv']['adt']})
-            got = rows
-            ok = rows.get(schema_no('v1::instance::Sense', 'Maximize')) == ['Max'] and rows.get('else') == ['Min'] and set(rows) == {schema_no('v1::instance::Sense', 'Maximize'), 'else'}
-        ctx.check(ok, R + '/sense', 'T-CONST', b.name, 'OBJSENSE dispatch on instance.sense is %s; the schema number of SENSE_MAXIMIZE is %s' % (got, schema_no('v1::instance::Sense', 'Maximize')), b.site())
-    # equality: 2 => "L" else "E"
+        ctx.fn(b); maxno = schema_no(ctx, 'v1::instance::Sense', 'Maximize'); got = {}
+        for k in range(0, 4):
+            ps = sx_paths(ctx, R + '/sense', 'T-CONST', b, WriterCase({('v1::Instance', 'sense'): k}))
+            if ps is None: return
+            shown = set()
+            for p in ps:
+                if p.end != 'return': continue
+                for lits, vals, bi in fmt_records(p):
+                    shown |= {sx_strip(v)[1].split('::')[-1] for v in vals if sx_strip(v)[0] == 'agg' and 'ObjSense::' in sx_strip(v)[1]}
+            got[k] = sorted(shown)
+        ok = maxno is not None and all(got[k] == (['Max'] if k == maxno else ['Min']) for k in got)
+        ctx.check(ok, R + '/sense', 'T-CONST', b.name, 'OBJSENSE written per value of instance.sense is %s; the schema number of SENSE_MAXIMIZE is %s' % (got, maxno), b.site())
+    # equality: LessThanOrEqualToZero => "L" else "E"
     b = W.get('mps::to_mps::write_rows')
     if b is None: ctx.lost(R + '/equality', 'write_rows')
     else:
-        ctx.fn(b); ok = False; got = None
-        for bi, t in int_switches(b, 'v1::Constraint', 'equality'):
-            m = {v: tg for v, tg in t['ts']}
-            rows = {}
-            for v, tg in list(m.items()) + [('else', t['else'])]:
-                others = (set(m.values()) | {t['else']}) - {tg}
-                reg = b.reach([tg], stop=others | set(b.loops()))
-                rows[v] = sorted({o['v'].strip('"') for b2, st in b.stmts() if b2 in reg for o in st['rv'].get('ops', []) if o['k'] == 'const' and re.fullmatch(r'"[A-Z]"', o['v'])})
-            got = rows
-            ok = rows.get(schema_no('v1::Equality', 'LessThanOrEqualToZero')) == ['L'] and rows.get('else') == ['E'] and len(rows) == 2
-        ctx.check(ok, R + '/equality', 'T-CONST', b.name, 'row kind dispatch on constraint.equality is %s; the schema number of LESS_THAN_OR_EQUAL_TO_ZERO is %s' % (got, schema_no('v1::Equality', 'LessThanOrEqualToZero')), b.site())
-    # kind: {BINARY, INTEGER} => integer markers / LI,UI
-    want = {schema_no('v1::decision_variable::Kind', 'Binary'), schema_no('v1::decision_variable::Kind', 'Integer')}
-    for fn in ('write_columns', 'write_bounds'):
-        b = W.get('mps::to_mps::' + fn)
-        if b is None: ctx.lost(R + '/kind/' + fn, fn); continue
-        ctx.fn(b); ok = False; got = None
-        for bi, t in int_switches(b, 'v1::DecisionVariable', 'kind'):
-            vals = {v for v, tg in t['ts']}
-            tg_int = {tg for v, tg in t['ts']}
-            got = sorted(vals)
-            if vals == want and len(tg_int) == 1:
-                reg_i = b.reach(list(tg_int), stop={t['else']} | set(b.loops())); reg_o = b.reach([t['else']], stop=tg_int | set(b.loops()))
-                if fn == 'write_columns':
-                    ok = any(c.bb in reg_i and c.item == 'intorg' for c in b.calls) and any(c.bb in reg_o and c.item == 'intend' for c in b.calls)
-                else:
-                    si = sorted({o['v'].strip('"') for b2, st in b.stmts() if b2 in reg_i - reg_o for o in st['rv'].get('ops', []) if o['k'] == 'const' and re.fullmatch(r'"[A-Z]{2}"', o['v'])})
-                    so = sorted({o['v'].strip('"') for b2, st in b.stmts() if b2 in reg_o - reg_i for o in st['rv'].get('ops', []) if o['k'] == 'const' and re.fullmatch(r'"[A-Z]{2}"', o['v'])})
-                    ok = si == ['LI', 'UI'] and so == ['LO', 'UP']
-        ctx.check(ok, R + '/kind/' + fn, 'T-CONST', b.name, 'integer handling is keyed on kind values %s; the schema numbers of BINARY/INTEGER are %s' % (got, sorted(want)), b.site())
+        ctx.fn(b); leno = schema_no(ctx, 'v1::Equality', 'LessThanOrEqualToZero'); got = {}
+        loops = sorted([lo for lo in loops_over(ctx, b, 'v1::Instance', 'constraints') if any(c.bb in lo[4] and c.item in ('write_fmt', 'write_all') for c in b.calls)], key=lambda lo: -len(lo[4]))
+        for k in range(0, 4) if loops else ():
+            ps = sx_loop_paths(ctx, R + '/equality', 'T-CONST', b, WriterCase({('v1::Constraint', 'equality'): k}), loops[0])
+            if ps is None: return
+            got[k] = sorted({x for p in ps if p.end == 'stop' for x in shown_consts(fmt_records(p), r'"[A-Z]"')})
+        ok = bool(got) and leno is not None and all(got[k] == (['L'] if k == leno else ['E']) for k in got)
+        ctx.check(ok, R + '/equality', 'T-CONST', b.name, 'row kind written per value of constraint.equality is %s; the schema number of LESS_THAN_OR_EQUAL_TO_ZERO is %s' % (got, leno), b.site())
+    # kind: {BINARY, INTEGER} => integer markers  (LI / UI: see bounds_rules)
+    want = {schema_no(ctx, 'v1::decision_variable::Kind', 'Binary'), schema_no(ctx, 'v1::decision_variable::Kind', 'Integer')}
+    b = W.get('mps::to_mps::write_columns')
+    if b is None: ctx.lost(R + '/kind/write_columns', 'write_columns')
+    else:
+        ctx.fn(b); got = {}
+        loops = sorted([lo for lo in loops_over(ctx, b, 'v1::Instance', 'decision_variables') if any(c.bb in lo[4] and c.item == 'intorg' for c in b.calls)], key=lambda lo: -len(lo[4]))
+        for k in range(0, 5) if loops else ():
+            ps = sx_loop_paths(ctx, R + '/kind/write_columns', 'T-CONST', b, WriterCase({('v1::DecisionVariable', 'kind'): k}), loops[0])
+            if ps is None: return
+            got[k] = sorted({e[1] for p in ps if p.end == 'stop' for e in p.events if e[0] == 'call' and e[1] in ('intorg', 'intend')})
+        ok = bool(got) and None not in want and all(got[k] == (['intorg'] if k in want else ['intend']) for k in got)
+        ctx.check(ok, R + '/kind/write_columns', 'T-CONST', b.name, 'integer markers per value of kind are %s; the schema numbers of BINARY/INTEGER are %s' % (got, sorted(x for x in want if x is not None)), b.site())
 
 
 def keyword_rules(ctx, W):
@@ -198,99 +229,198 @@ def linear_rules(ctx, W):
         # objective entry goes through write_col_entry with OBJ_NAME and its error is re-labelled as InvalidObjectiveType
         wc = [c for c in b.calls if c.item == 'write_col_entry']
         obj = [c for c in wc if any(x.item == 'objective' for x in ctx.S.slice_operand(b, c.args[3]).call_objs)]
-        ctx.check(len(obj) == 1, R + '/objective-checked', 'T-MUSTCALL', b.name, 'the objective is not written (and checked for linearity) per column', b.site())
-        for c in wc:
-            res = T.errflow(b, c.dst['l'])
-            ctx.check(not [h for k, h in res if k == 'bad'], R + '/column-entry-error/%s' % ('objective' if c in obj else 'constraint'), 'T-ERRFLOW', b.name, 'write_col_entry error is dropped', b.site(c.bb))
+        ctx.check(len(obj) >= 1, R + '/objective-checked', 'T-MUSTCALL', b.name, 'the objective is not written (and checked for linearity) per column', b.site())
+        for what, cs in (('objective', obj), ('constraint', [c for c in wc if c not in obj])):
+            bad = [h for c in cs for k, h in result_errflow(b, c.dst['l']) if k == 'bad']
+            ctx.check(bool(cs) and not bad, R + '/column-entry-error/%s' % what, 'T-ERRFLOW', b.name, 'write_col_entry error is dropped (%s)' % '; '.join(sorted(set(bad))), b.site(cs[0].bb) if cs else b.site())
         relabel = any(st['rv']['k'] == 'agg' and st['rv']['adt'].endswith('MpsWriteError::InvalidObjectiveType') for cb in [b] + ctx.F.closures_of(b) for bi, st in cb.stmts())
         ctx.check(relabel, R + '/objective-error-type', 'T-ERRFLOW', b.name, 'a non-linear objective is not reported as InvalidObjectiveType', b.site())
         # every column x every constraint
         loops = T.for_loops(b)
-        outer = [l for l in loops if ctx.S.slice_operand(b, l[0].args[0]).has_field('v1::Instance', 'decision_variables') and not any(set(l[4]) < set(o[4]) for o in loops)]
-        inner = [l for l in loops if ctx.S.slice_operand(b, l[0].args[0]).has_field('v1::Instance', 'constraints') and any(set(l[4]) < set(o[4]) for o in loops)]
+        con = [c for c in wc if c not in obj]
+        # the loop over the columns that writes the objective entry, and inside it the loop over the rows that writes the constraint entries
+        outer = [l for l in loops if ctx.S.slice_operand(b, l[0].args[0]).has_field('v1::Instance', 'decision_variables') and any(c.bb in l[4] for c in obj)]
+        inner = [l for l in loops if ctx.S.slice_operand(b, l[0].args[0]).has_field('v1::Instance', 'constraints') and any(c.bb in l[4] for c in con) and any(set(l[4]) < set(o[4]) for o in outer)]
+        outer = sorted(outer, key=lambda l: -len(l[4]))[:1]; inner = sorted(inner, key=lambda l: len(l[4]))[:1]
         ctx.check(len(outer) == 1 and len(inner) == 1, 'C18.columns/loops', 'T-LOOPMUST', b.name, 'expected a loop over decision_variables containing a loop over constraints', b.site())
         if len(outer) == 1 and len(inner) == 1:
-            con = [c for c in wc if c not in obj]
             loop_must(ctx, 'C18.columns/every-constraint', b, inner[0], lambda c: c in con, 'write_col_entry(constraint)')
             loop_must(ctx, 'C18.columns/every-variable', b, outer[0], lambda c: c in obj, 'write_col_entry(objective)')
     b = W.get('mps::to_mps::write_col_entry')
     if b is not None:
         # entry is written iff term.id == var_id and coefficient != 0; all matching terms
-        loops = T.for_loops(b)
-        ctx.check(len(loops) == 1, 'C18.columns/entry/loop', 'T-LOOPMUST', b.name, 'expected one loop over the terms', b.site())
-        cmps = [(bi, st) for bi, st in b.stmts() if st['rv']['k'] == 'bin' and st['rv']['op'] in ('Eq', 'Ne')]
-        ideq = any(st['rv'].get('ty') == 'u64' and st['rv']['op'] == 'Eq' for bi, st in cmps)
-        nz = any(st['rv'].get('ty') == 'f64' and any(o['k'] == 'const' and o['v'] == '0f64' for o in st['rv']['ops']) for bi, st in cmps)
-        ctx.check(ideq and nz and len(cmps) == 2, 'C18.columns/entry/condition', 'T-BRANCHFX', b.name, 'entry condition is not exactly `term.id == var_id && coefficient != 0`', b.site())
+        col_entry_rules(ctx, b)
+
+
+class ColEntryCase(SxOracle):
+    """write_col_entry on a linear function: one term whose id is (not) the column's id, with the given coefficient"""
+    VAR = 7.0
+
+    def __init__(self, same, coeff): self.same = same; self.coeff = coeff
+
+    def variant(self, sx, v, st):
+        if v[0] == 'call' and v[1] == 'as_linear': return 'Some'
+        if v[0] == 'call' and v[1] in ('write_fmt', 'write_all'): return 'Ok'
+        return None
+
+    def num(self, sx, v, st):
+        if v == ('param', 1): return self.VAR
+        if v[0] == 'field' and v[3].endswith('linear::Term'):
+            if v[2] == 'id': return self.VAR if self.same else self.VAR + 2
+            if v[2] == 'coefficient': return self.coeff
+        return None
+
+
+def col_entry_rules(ctx, b):
+    """an entry `column row coefficient` is written for exactly the terms with term.id == var_id and coefficient != 0 (all of them)"""
+    def writes(c): return c.item in ('write_fmt', 'write_all')
+    loops = sorted([lo for lo in T.for_loops(b) if any(c.bb in lo[4] and writes(c) for c in b.calls)], key=lambda lo: -len(lo[4]))
+    ok = bool(loops) and any(x.item == 'as_linear' for x in ctx.S.slice_operand(b, loops[0][0].args[0]).call_objs)
+    restr = sorted({x.item for x in ctx.S.slice_operand(b, loops[0][0].args[0]).call_objs if x.item in RESTRICTING and 'Iterator' in (x.trait or '')}) if loops else []
+    ctx.check(ok and not restr, 'C18.columns/entry/loop', 'T-LOOPMUST', b.name, 'no loop over all the terms of the linear function writes the entries (restricted by %s)' % restr, b.site())
+    if not loops: return
+    probs = []; n = 0
+    for same in (True, False):
+        for coeff in (2.5, -1e-9, 0.0):
+            orc = ColEntryCase(same, coeff)
+            ps = sx_loop_paths(ctx, 'C18.columns/entry/condition', 'T-BRANCHFX', b, orc, loops[0])
+            if ps is None: return
+            sx = Sx(ctx, b, orc)
+            case = 'term.id %s var_id, coefficient %s' % ('==' if same else '!=', coeff)
+            done = [p for p in ps if p.end == 'stop']
+            if not done: probs.append('%s: the term is not processed' % case)
+            for p in done:
+                n += 1
+                recs = [r for r in fmt_records(p) if r[1]]
+                want = same and coeff != 0.0
+                if bool(recs) != want: probs.append('%s: entry %s' % (case, 'written' if recs else 'not written'))
+                for lits, vals, bi in recs:
+                    if want and not (any(sx.conc(v, p) == coeff for v in vals) and all(any(('param', k) in set(sx_walk(v)) for v in vals) for k in (2, 3))):
+                        probs.append('%s: the entry is not (column name, row name, coefficient): %s' % (case, [sx_str(v, 3) for v in vals]))
+    ctx.check(n > 0 and not probs, 'C18.columns/entry/condition', 'T-BRANCHFX', b.name, 'an entry must be written iff `term.id == var_id && coefficient != 0`: %s' % '; '.join(sorted(set(probs))[:3]), b.site(loops[0][0].bb))
+
+
+class RhsCase(SxOracle):
+    """write_rhs: the objective / the constraint at hand is linear with the given constant (None: not linear)"""
+    def __init__(self, obj, con): self.obj = obj; self.con = con
+
+    def _which(self, v):
+        if v[0] == 'call' and v[1] == 'as_linear':
+            if any(c is not v for c in sx_calls(v, 'objective')): return 'obj'
+            if any(c is not v for c in sx_calls(v, 'function')): return 'con'
+        return None
+
+    def variant(self, sx, v, st):
+        w = self._which(v)
+        if w: return 'Some' if getattr(self, w) is not None else 'None'
+        if v[0] == 'call' and v[1] in ('write_fmt', 'write_all'): return 'Ok'
+        return None
+
+    def num(self, sx, v, st):
+        if v[0] == 'field' and v[2] == 'constant' and v[1][0] == 'field' and v[1][3] == 'payload':
+            w = self._which(v[1][1])
+            if w: return getattr(self, w)
+        return None
 
 
 def rhs_rules(ctx, W):
+    """the RHS section carries minus the constant of the objective (under the objective row) and of every constraint; only an
+    exact zero may be left out"""
     b = W.get('mps::to_mps::write_rhs')
     if b is None: return
     R = 'C18.rhs'
-    negs = [(bi, st) for bi, st in b.stmts() if st['rv']['k'] == 'un' and st['rv']['op'] == 'Neg']
-    ctx.check(len(negs) == 2, R + '/negated', 'T-BRANCHFX', b.name, 'RHS entries are not the negated constants (objective and constraints): %d negations' % len(negs), b.site())
-    for bi, st in negs:
-        ex = T.expr(b, st['rv']['ops'][0])
-        ctx.check(('v1::Linear', 'constant') in T.expr_fields(ex) or any(f == 'constant' for a, f in T.expr_fields(ex)), R + '/negates-constant', 'T-CARRY', b.name, 'negation is not applied to the linear constant', b.site(bi))
-    loops = loops_over(ctx, b, 'v1::Instance', 'constraints')
-    ctx.check(len(loops) == 1, R + '/loop', 'T-LOOPMUST', b.name, 'expected one loop over constraints', b.site())
-    # only a zero constant may be omitted
-    zs = [(bi, st) for bi, st in float_cmp_sites(b, ('Ne', 'Eq')) if any(o['k'] == 'const' and o['v'] == '0f64' for o in st['rv']['ops'])]
-    ctx.check(len(zs) == 2, R + '/only-zero-omitted', 'T-BRANCHFX', b.name, 'RHS entries are skipped under another condition than `constant != 0`', b.site())
+    loops = [lo for lo in loops_over(ctx, b, 'v1::Instance', 'constraints') if any(c.bb in lo[4] and c.item == 'as_linear' for c in b.calls)]
+    loops = sorted(loops, key=lambda lo: -len(lo[4]))
+    restr = sorted({x.item for x in ctx.S.slice_operand(b, loops[0][0].args[0]).call_objs if x.item in RESTRICTING and 'Iterator' in (x.trait or '')}) if loops else []
+    ctx.check(len(loops) >= 1 and not restr, R + '/loop', 'T-LOOPMUST', b.name, 'no loop over all constraints (restricted by %s)' % restr, b.site())
+    header = loops[0][1] if loops else None
+    res = {}
+    for what, cs in (('negated', (3.5, -2.0)), ('only-zero-omitted', (1e-9,))):
+        probs = []; n = 0
+        for c in cs:
+            # objective
+            orc = RhsCase(c, None)
+            ps = sx_paths(ctx, R + '/' + what, 'T-BRANCHFX', b, orc, 0, {header} if header is not None else ())
+            if ps is None: return
+            sx = Sx(ctx, b, orc)
+            done = [p for p in ps if p.end == 'stop' or (p.end == 'return' and header is None)]
+            if not done: probs.append('objective constant %s: the section is not written' % c)
+            for p in done:
+                n += 1
+                if not any(sx.conc(v, p) == -c for lits, vals, bi in fmt_records(p) for v in vals):
+                    probs.append('objective constant %s: no record with %s (%s)' % (c, -c, [[sx_str(v, 3) for v in vals] for lits, vals, bi in fmt_records(p) if vals]))
+            # constraints
+            if loops:
+                orc = RhsCase(0.0, c)
+                ps = sx_loop_paths(ctx, R + '/' + what, 'T-BRANCHFX', b, orc, loops[0])
+                if ps is None: return
+                sx = Sx(ctx, b, orc)
+                done = [p for p in ps if p.end == 'stop']
+                if not done: probs.append('constraint constant %s: the constraint is not processed' % c)
+                for p in done:
+                    n += 1
+                    recs = [(lits, vals) for lits, vals, bi in fmt_records(p) if any(sx.conc(v, p) == -c for v in vals)]
+                    if not recs: probs.append('constraint constant %s: no record with %s' % (c, -c))
+                    elif not any(sx_calls(v, 'constr_name') for lits, vals in recs for v in vals): probs.append('constraint constant %s: the record is not under the row name of the constraint' % c)
+        ctx.check(n > 0 and not probs, R + '/' + what, 'T-BRANCHFX', b.name,
+                  ('RHS entries are not the negated constants: %s' if what == 'negated' else 'a non-zero constant is left out of the RHS section: %s') % '; '.join(sorted(set(probs))[:3]), b.site())
 
 
 def bounds_rules(ctx, W):
+    """every used variable gets an upper and a lower bound record with the keyword of its end and kind; an unset bound is written
+    with its documented meaning ((-inf, inf), [0, 1] for binaries), never left to the MPS default; decided on the records written
+    for each combination of kind and bound"""
     R = 'C18.bounds'
     b = W.get('mps::to_mps::write_bounds')
     if b is None:
         ctx.lost(R, 'write_bounds'); return
     ctx.fn(b)
     loops = [lo for lo in T.for_loops(b) if ctx.S.slice_operand(b, lo[0].args[0]).has_call(r'impl v1::Instance>::used_decision_variable_ids')]
-    ctx.check(len(loops) == 1, R + '/loop', 'T-LOOPMUST', b.name, 'expected one loop over the used variable ids, found %d' % len(loops), b.site())
+    loops = sorted(loops, key=lambda lo: -len(lo[4]))[:1]
+    ctx.check(len(loops) == 1, R + '/loop', 'T-LOOPMUST', b.name, 'no loop over the used variable ids', b.site())
+    binno = schema_no(ctx, 'v1::decision_variable::Kind', 'Binary'); intno = schema_no(ctx, 'v1::decision_variable::Kind', 'Integer')
+    inf = float('inf')
     for lo in loops:
         nextc, header, some_bb, none_bb, blocks = lo
-        wf = [c for c in b.calls if c.bb in blocks and c.item == 'write_fmt']
-        ups = []; lows = []
-        for c in wf:
-            ex = T.expr(b, c.args[1], depth=14)
-            fs = [f for a, f in T.expr_fields(ex) if a.endswith('v1::Bound')]
-            s = ctx.S.slice_operand(b, c.args[1])
-            if s.has_field('v1::Bound', 'upper') and not s.has_field('v1::Bound', 'lower'): ups.append(c)
-            elif s.has_field('v1::Bound', 'lower') and not s.has_field('v1::Bound', 'upper'): lows.append(c)
-        ctx.check(len(ups) == 1 and len(lows) == 1, R + '/two-records', 'T-LOOPMUST', b.name, 'expected one upper and one lower bound record per variable, found %d / %d' % (len(ups), len(lows)), b.site(nextc.bb))
-        errs = b.err_exits()
-        for what, cs in (('upper', ups), ('lower', lows)):
-            if not cs: continue
-            ok = T.must_pass(b, some_bb, {header}, {cs[0].bb})
-            ctx.check(ok, R + '/every-variable/' + what, 'T-LOOPMUST', b.name,
-                      'a used variable can pass through the loop without its %s bound being written (e.g. when `bound` is unset the MPS default [0,+inf) would apply on reading)' % what, b.site(cs[0].bb))
-        # the kind keyword pairs with the right end: upper with UI/UP, lower with LI/LO
-        tuples = [(bi, st) for bi, st in b.stmts() if bi in blocks and st['rv']['k'] == 'agg' and st['rv']['adt'] == 'tuple' and all(o['k'] == 'const' for o in st['rv']['ops']) and len(st['rv']['ops']) == 2]
-        okp = bool(tuples) and all((st['rv']['ops'][0]['v'].strip('"'), st['rv']['ops'][1]['v'].strip('"')) in (('LI', 'UI'), ('LO', 'UP')) for bi, st in tuples)
-        def kw_index(c):
-            s = ctx.S.slice_operand(b, c.args[1]); ex = T.expr(b, c.args[1], depth=16)
-            return sorted({f for x in T.expr_walk(ex) if x[0] in ('place', 'proj') for a, f in x[2] if a == 'tuple'})
-        ctx.check(okp and bool(ups) and bool(lows) and '1' in kw_index(ups[0]) and '0' in kw_index(lows[0]) and '0' not in kw_index(ups[0]) and '1' not in kw_index(lows[0]),
-                  R + '/keyword-matches-end', 'T-CARRY', b.name, 'bound keywords are not paired (lower: LI/LO, upper: UI/UP) with the bound they describe', b.site(nextc.bb))
+        miss = {'upper': [], 'lower': []}; count = []; ends = []; unset = []; kinds = {}; n = 0
+        for k in range(0, 5):
+            for bound in ((0.0, 5.0), (-2.5, inf), 'unset'):
+                orc = WriterCase({('v1::DecisionVariable', 'kind'): k}, bound)
+                ps = sx_loop_paths(ctx, R + '/two-records', 'T-LOOPMUST', b, orc, lo)
+                if ps is None: return
+                sx = Sx(ctx, b, orc)
+                done = [p for p in ps if p.end == 'stop']
+                lo_, up_ = bound if bound != 'unset' else ((0.0, 1.0) if k == binno else (-inf, inf))
+                case = 'kind=%s bound=%s' % (k, bound)
+                if not done: count.append('%s: the variable is not processed' % case)
+                for p in done:
+                    n += 1
+                    recs = []
+                    for lits, vals, bi in fmt_records(p):
+                        kws = shown_consts([(lits, vals, bi)], r'"[A-Z]{2}"'); nums = [x for x in (sx.conc(v, p) for v in vals) if isinstance(x, float)]
+                        if kws or nums: recs.append((kws[0] if kws else None, nums[0] if nums else None, any(sx_calls(v, 'dvar_name') for v in vals)))
+                    if len(recs) != 2 or not all(nm for kw, x, nm in recs): count.append('%s: records %s' % (case, recs))
+                    for what, val in (('upper', up_), ('lower', lo_)):
+                        hit = [kw for kw, x, nm in recs if x == val]
+                        if not hit:
+                            (unset if bound == 'unset' else miss[what]).append('%s: no record for the %s bound %s (records %s)' % (case, what, val, recs))
+                        elif not all(kw and kw[0] == ('U' if what == 'upper' else 'L') for kw in hit): ends.append('%s: %s bound written as %s' % (case, what, hit))
+                    kinds.setdefault(k, set()).update(kw for kw, x, nm in recs if kw)
+        for what in ('upper', 'lower'):
+            ctx.check(n > 0 and not miss[what], R + '/every-variable/' + what, 'T-LOOPMUST', b.name,
+                      'a used variable can pass through the loop without its %s bound being written (the MPS default [0,+inf) would apply on reading): %s' % (what, '; '.join(miss[what][:2])), b.site(nextc.bb))
+        ctx.check(n > 0 and not count, R + '/two-records', 'T-LOOPMUST', b.name, 'expected one upper and one lower bound record per variable, under its generated name: %s' % '; '.join(count[:2]), b.site(nextc.bb))
+        ctx.check(n > 0 and not ends, R + '/keyword-matches-end', 'T-CARRY', b.name, 'bound keywords are not paired (lower: LI/LO, upper: UI/UP) with the bound they describe: %s' % '; '.join(ends[:2]), b.site(nextc.bb))
+        ctx.check(n > 0 and not unset, R + '/unset-bound-domain', 'T-SIBLING', b.name, 'an unset bound is not written as (-inf, +inf) / [0, 1] for binaries: %s' % '; '.join(unset[:2]), b.site(nextc.bb))
+        got = {k: sorted(v) for k, v in kinds.items()}
+        ok = bool(got) and all(got[k] == (['LI', 'UI'] if k in (binno, intno) else ['LO', 'UP']) for k in got)
+        ctx.check(ok, 'C18.magic/kind/write_bounds', 'T-CONST', b.name, 'bound keywords per value of kind are %s; the schema numbers of BINARY/INTEGER are %s' % (got, sorted(x for x in (binno, intno) if x is not None)), b.site(nextc.bb))
         # unknown id => InvalidVariableId
-        gets = [c for c in b.calls if c.bb in blocks and c.item == 'get' and 'HashMap' in c.name]
-        errflow_calls(ctx, R + '/unknown-id-is-error', b, gets, 'unknown variable id')
-        okid = any(st['rv']['k'] == 'agg' and st['rv']['adt'].endswith('MpsWriteError::InvalidVariableId') for bi, st in b.stmts())
+        gets = [c for c in b.calls if c.bb in blocks and c.item in ('get', 'get_key_value') and 'HashMap' in c.name]
+        bad = [h for c in gets for k_, h in T.errflow(b, c.dst['l']) if k_ == 'bad']
+        ctx.check(bool(gets) and not bad, R + '/unknown-id-is-error', 'T-ERRFLOW', b.name, 'unknown variable id: %s' % '; '.join(sorted(set(bad))), b.site(nextc.bb))
+        okid = any(st['rv']['k'] == 'agg' and st['rv']['adt'].endswith('MpsWriteError::InvalidVariableId') for cb in [b] + list(ctx.F.closures_of(b)) for bi, st in cb.stmts())
         ctx.check(okid, R + '/unknown-id-typed', 'T-ERRFLOW', b.name, 'unknown id is not reported as InvalidVariableId', b.site())
-    # unset bound is given the documented meaning ((-inf, inf), [0,1] for binaries) — never the MPS default
-    tests = option_field_tests(b, 'v1::DecisionVariable', 'bound')
-    okd = False
-    for sb, sm, nn in tests:
-        nr = T.reach_cp(b, [nn], stop=set(b.loops())) - T.reach_cp(b, [sm], stop=set(b.loops()))
-        vals = []
-        for bi, st in find_aggregates(b, 'v1::Bound'):
-            if bi in nr:
-                d = dict(zip(st['rv']['fields'], st['rv']['ops']))
-                def v(o): return ('-inf' if 'NEG_INFINITY' in o['v'] else ('+inf' if 'INFINITY' in o['v'] else o['v'])) if o['k'] == 'const' else '?'
-                vals.append((v(d['lower']), v(d['upper'])))
-        okd = sorted(vals) == [('-inf', '+inf'), ('0f64', '1f64')]
-    ctx.check(okd, R + '/unset-bound-domain', 'T-SIBLING', b.name, 'an unset bound is not written as (-inf, +inf) / [0, 1] for binaries', b.site())
 
 
 def ids_rules(ctx, W):
@@ -324,7 +454,9 @@ def ids_rules(ctx, W):
     if pb is not None:
         sp = [c for c in pb.calls if c.item == 'strip_prefix']
         ps = [c for c in pb.calls if c.item == 'parse' and 'u64' in c.name]
-        ctx.check(len(sp) == 1 and len(ps) == 1 and T.access_path(pb, sp[0].args[1])[1] == 1 and T.access_path(pb, sp[0].args[0])[1] == 2, R + '/parse_id_tag/strips-then-parses', 'T-CARRY', pb.name, 'id is not parsed from the name after the prefix', pb.site())
+        def strips(c): return T.access_path(pb, c.args[1])[1] == 1 and T.access_path(pb, c.args[0])[1] == 2
+        ok = bool(ps) and all(any(x.item == 'strip_prefix' and strips(x) for x in ctx.S.slice_operand(pb, c.args[0]).call_objs) for c in ps) and all(strips(c) for c in sp)
+        ctx.check(ok, R + '/parse_id_tag/strips-then-parses', 'T-CARRY', pb.name, 'id is not parsed from the name after the prefix', pb.site())
 
 
 # the round trip reads the written text back through the MPS reader and converter
@@ -343,4 +475,6 @@ def check(ctx):
             mustcall(ctx, 'C18.sections/' + fn, wm, lambda c, fn=fn: c.item == fn, fn + '(instance, out)?')
         order = [c.item for c in wm.calls if c.item.startswith('write_') and c.item != 'write_fmt']
         ctx.check(order == ['write_beginning', 'write_rows', 'write_columns', 'write_rhs', 'write_bounds'], 'C18.sections/order', 'T-BRANCHFX', wm.name, 'sections are written in the order %s' % order, wm.site())
-    ctx.floor('C18.magic', 4); ctx.floor('C18.keywords', 15); ctx.floor('C18.linear', 8); ctx.floor('C18.bounds', 7); ctx.floor('C18.ids', 7); ctx.floor('C18.sections', 6); ctx.floor('C18.rhs', 4); ctx.floor('C18.columns', 4)
+    # decided instances per family on the unchanged tree
+    for fam, n in {'C18.magic': 4, 'C18.keywords': 26, 'C18.linear': 9, 'C18.bounds': 8, 'C18.ids': 9, 'C18.sections': 6, 'C18.rhs': 3, 'C18.columns': 7}.items():
+        ctx.floor(fam, n)
